@@ -189,13 +189,14 @@ static void exec_entry(int e, const Shape& sh, MODULE* mod, Run& R) {
 // table-based / stand-alone kernels on exactly-sized, 8-byte-aligned buffers
 enum { K_REIM_FFT = 0, K_REIM_IFFT, K_CPLX_FFT, K_CPLX_IFFT, K_FROM_ZNX64, K_TO_ZNX64, K_TO_TNX, K_CPLX_FROM_ZNX32, K_CPLX_FROM_TNX32, K_CPLX_TO_TNX32, K_REIM_MUL,
        K_REIM_ADDMUL, K_CPLX_MUL, K_CPLX_ADDMUL, K_REIM4_MUL, K_REIM4_ADDMUL, K_Q120_NTT, K_Q120_INTT, K_Q120_BAA, K_Q120_BBB, K_Q120_BBC, K_Q120_FROM64, K_Q120_TO128,
-       K_ROT_INPLACE, K_AUT_INPLACE, K_SIMPLE_PAIR_TO_ZNX64, K_SIMPLE_PAIR_TO_TNX32, K_SIMPLE_PAIR_FROM_ZNX64, K_REIM4_CONV, K_REIM4_DOT, K_COUNT };
+       K_ROT_INPLACE, K_AUT_INPLACE, K_SIMPLE_PAIR_TO_ZNX64, K_SIMPLE_PAIR_TO_TNX32, K_SIMPLE_PAIR_FROM_ZNX64, K_REIM4_CONV, K_REIM4_DOT, K_FFT_BUILTIN, K_COUNT };
 static const char* KNAMES[K_COUNT] = {"reim_fft", "reim_ifft", "cplx_fft", "cplx_ifft", "reim_from_znx64", "reim_to_znx64", "reim_to_tnx", "cplx_from_znx32", "cplx_from_tnx32",
                                       "cplx_to_tnx32", "reim_fftvec_mul", "reim_fftvec_addmul", "cplx_fftvec_mul", "cplx_fftvec_addmul", "reim4_fftvec_mul", "reim4_fftvec_addmul",
                                       "q120_ntt_bb_avx2", "q120_intt_bb_avx2", "q120_vec_mat1col_product_baa", "q120_vec_mat1col_product_bbb", "q120_vec_mat1col_product_bbc",
                                       "q120_b_from_znx64_simple", "q120_b_to_znx128_simple", "znx_rotate_inplace_i64", "znx_automorphism_inplace_i64",
                                       "reim_to_znx64_simple(m1 then m2)", "cplx_to_tnx32_simple(m1 then m2)", "reim_from_znx64_simple(m1 then m2)",
-                                      "reim4_convolution(1coeff/2coeff/windowed)", "reim4_vec_mat1col/mat2cols_product"};
+                                      "reim4_convolution(1coeff/2coeff/windowed)", "reim4_vec_mat1col/mat2cols_product",
+                                      "fft in the precomp's own buffers(reim/cplx, fft/ifft, 1..4 buffers)"};
 
 static void exec_kernel(int kf, uint64_t m, unsigned mask, uint64_t ell, int avx, Run& R) {
   spq::MaskGuard g(mask);
@@ -375,6 +376,29 @@ static void exec_kernel(int kf, uint64_t m, unsigned mask, uint64_t ell, int avx
       if (which % 3 == 0) { reim4_convolution_1coeff_ref(off, r, a, sizea, b, sizeb); R.result(r, 64); }
       else if (which % 3 == 1) { reim4_convolution_2coeff_ref(off, r, a, sizea, b, sizeb); R.result(r, 128); }
       else { reim4_convolution_ref(r, dsz, off, a, sizea, b, sizeb); R.result(r, dsz * 64); }
+      break;
+    }
+    case K_FFT_BUILTIN: {
+      // transforms inside the buffers the table object itself provides (new_*_precomp(m, num_buffers), *_precomp_get_buffer): each of
+      // them holds 2m doubles and belongs to the object's single heap block (the sanitizer / the exact-size tracker sees its end)
+      const uint32_t nbuf = 1 + (uint32_t)(ell % 4), which = (uint32_t)avx + 2 * (uint32_t)((ell / 4) & 1);
+      void* t = which == 0 ? (void*)new_reim_fft_precomp((uint32_t)m, nbuf) : which == 1 ? (void*)new_reim_ifft_precomp((uint32_t)m, nbuf)
+                : which == 2 ? (void*)new_cplx_fft_precomp((uint32_t)m, nbuf) : (void*)new_cplx_ifft_precomp((uint32_t)m, nbuf);
+      std::vector<double*> bufs(nbuf);
+      for (uint32_t i = 0; i < nbuf; ++i) {
+        bufs[i] = which == 0 ? reim_fft_precomp_get_buffer((REIM_FFT_PRECOMP*)t, i) : which == 1 ? reim_ifft_precomp_get_buffer((REIM_IFFT_PRECOMP*)t, i)
+                  : which == 2 ? (double*)cplx_fft_precomp_get_buffer((CPLX_FFT_PRECOMP*)t, i) : (double*)cplx_ifft_precomp_get_buffer((CPLX_IFFT_PRECOMP*)t, i);
+        dbl(bufs[i], 2 * m);
+      }
+      R.freeze();
+      for (uint32_t i = nbuf; i-- > 0;) {
+        if (which == 0) reim_fft((REIM_FFT_PRECOMP*)t, bufs[i]);
+        else if (which == 1) reim_ifft((REIM_IFFT_PRECOMP*)t, bufs[i]);
+        else if (which == 2) cplx_fft((CPLX_FFT_PRECOMP*)t, bufs[i]);
+        else cplx_ifft((CPLX_IFFT_PRECOMP*)t, bufs[i]);
+      }
+      for (uint32_t i = 0; i < nbuf; ++i) R.result(bufs[i], 2 * m * 8);
+      free(t);
       break;
     }
     case K_REIM4_DOT: {
